@@ -14,6 +14,10 @@ package migrate
 //@   requires ctx != nil && dst != nil && src != nil
 //@   requires src.last < 0x4000000000000000 && 0 <= dst.nstored && dst.nstored < 0x4000000000000000 && (progress == nil || !closed(progress))
 //@   assigns *
+//@   -- every entry is read into an empty raft.Log of its own: a source that decodes
+//@   -- into the capacity it is given (raft-boltdb) can then not overwrite the
+//@   -- bytes of an entry that is still waiting in the batch
+//@   site before-call(raft.LogStore.GetLog#1) requires[C19.entry-read-into-own-empty-log] cap(callarg2.Data) == 0 && cap(callarg2.Extensions) == 0
 //@   ensures[C19.closed] progress != nil ==> closed(progress)
 //@   ensures[C19.empty-source] src.first == 0 && src.last == 0 ==> nevent("call:raft.LogStore.GetLog") == 0
 //@   ensures[C19.count] result == nil && src.first <= src.last && src.last > 0 ==> dst.nstored == old(dst.nstored) + int(src.last - src.first + 1)
